@@ -629,6 +629,18 @@ func (t *Term) HasUnspec() bool {
 	return u
 }
 
+// HasElvis reports whether some conditional shares one term between its
+// condition and its first arm (a ?: b).
+func (t *Term) HasElvis() bool {
+	u := false
+	t.Walk(func(x *Term) {
+		if x != nil && x.K == KCond && x.Sub[0] == x.Sub[1] {
+			u = true
+		}
+	})
+	return u
+}
+
 // HasAny reports whether some sub-term has static type interface{}.
 func (t *Term) HasAny() bool {
 	u := false
